@@ -371,3 +371,21 @@ MUTANTS += [
   "old": "                    if i1 is S.Zero:\n                        break\n                norm_factor += i1.expand()",
   "new": "                    if i1 is not S.Zero:\n                        break\n                norm_factor += i1.expand()"},
 ]
+
+_GCF = "adcgen/generate_code/generate_code.py"
+MUTANTS += [
+ {"id": "c17-gc-block-separator", "prop": "C17", "file": _GCF,
+  "old": "    return \"\\n\\n\".join(code)", "new": "    return \"\\n\".join(code)"},
+ {"id": "c17-gc-separator-kept-in-targets", "prop": "C17", "file": _GCF,
+  "old": "    if \",\" in target_indices:\n        target_indices = target_indices.replace(\",\", \"\")",
+  "new": "    if \",\" in target_indices:\n        target_indices = target_indices"},
+ {"id": "c17-gc-limits-dropped", "prop": "C17", "file": _GCF,
+  "old": "                    target_spin=target_spin, max_itmd_dim=max_itmd_dim,\n",
+  "new": "                    target_spin=target_spin, max_itmd_dim=None,\n"},
+ {"id": "c17-gc-inner-not-cached", "prop": "C17", "file": _GCF,
+  "old": "                contraction_cache[contr.contraction_name] = contr_str\n",
+  "new": "                contraction_cache[contr.contraction_name + '_'] = contr_str\n"},
+ {"id": "c17-gc-prefactor-only-term-dropped", "prop": "C17", "file": _GCF,
+  "old": "                contraction_code.append(prefactor)\n                continue",
+  "new": "                continue"},
+]
